@@ -81,7 +81,7 @@ func runC20(t *testing.T, seed uint64, planJSON []byte, tier string) (res *Resul
 		plan.MaxIdle = simkit.Pick(g, []int{0, 1, 2, 8})
 		plan.MaxOpen = simkit.Pick(g, []int{0, 0, 4, 16})
 		plan.Cfg = genATCfg(g, true)
-		plan.Cfg.ServerVersion = "8.0.30"
+		plan.Cfg.ServerVersion = simkit.Pick(g, []string{"8.0.30", "8.0.30", "5.7.40", "8.0.28"})
 		plan.GoschedP = simkit.Pick(g, []int{0, 10, 50})
 	}
 	tape := simkit.NewTape(seed)
